@@ -157,7 +157,47 @@ def serial_of_record(rec):
     return serial_of_header(h)
 
 
+def run_cli(case, lib, d, with_rejects):
+    """the same library through the demux.py command line in a subprocess"""
+    import subprocess
+    import sys
+    import singlecellmultiomics.modularDemultiplexer as md
+    cfg = case['cfg']
+    nm = 1 if (cfg['single_end_input'] or len(lib[0]) == 1) else 2
+    indir = os.path.join(d, 'in_%s' % ('rej' if with_rejects else 'norej'))
+    os.makedirs(indir)
+    files = []
+    for m in range(nm):
+        path = os.path.join(indir, 'mylib_R%d.fastq.gz' % (m + 1))
+        with gzip.open(path, 'wt') as f:
+            for pair in lib:
+                h, sq, q = pair[m]
+                f.write('%s\n%s\n+\n%s\n' % (h, sq, q))
+        files.append(path)
+    outroot = os.path.join(d, 'cli_%s' % ('rej' if with_rejects else 'norej'))
+    cmd = [sys.executable, os.path.join(os.path.dirname(md.__file__), 'demux.py')] + files + [
+        '--y', '-use', cfg['strategy'], '-o', outroot, '-barcodeDir', ds.barcode_dir(scratch_dir()), '-hd', str(cfg['hd'])]
+    if not with_rejects:
+        cmd.append('--norejects')
+    if cfg['per_cell']:
+        cmd += ['--scsepf', '-fh', str(cfg['maxHandles'])]
+    if cfg['maxReadPairs'] is not None:
+        cmd += ['-n', str(cfg['maxReadPairs'])]
+    if nm == 1:
+        cmd.append('--se')
+    env = dict(os.environ)
+    r = subprocess.run(cmd, stdout=subprocess.PIPE, stderr=subprocess.PIPE, env=env, cwd=d)
+    outdir = os.path.join(outroot, 'mylib')
+    err = None
+    if r.returncode != 0:
+        err = ('exit%d' % r.returncode, 'demux.py', r.stderr.decode('utf8', 'replace')[-300:])
+    logp = os.path.join(outdir, 'demultiplexing.log')
+    return {'outdir': outdir, 'nm': nm, 'ret': None, 'err': err, 'log': open(logp).read() if os.path.exists(logp) else ''}
+
+
 def run_loader(case, lib, d, with_rejects):
+    if case['cfg'].get('via_cli'):
+        return run_cli(case, lib, d, with_rejects)
     from singlecellmultiomics.fastqProcessing.fastqHandle import FastqHandle
     cfg = case['cfg']
     loader, strategies, bp, ip, _ = ds.get_loader(scratch_dir(), cfg['hd'])
@@ -203,6 +243,8 @@ def run_loader(case, lib, d, with_rejects):
 def collect(outdir, nm, per_cell):
     """{'demux': [records per mate], 'rejects': [...]} parsed from all output files"""
     res = {}
+    if not os.path.isdir(outdir):
+        return {'demux': [[] for _ in range(nm)], 'rejects': [[] for _ in range(nm)], 'demux_files': [[], []]}
     if per_cell:
         demux = [[], []]
         for fn in sorted(os.listdir(outdir)):
@@ -231,7 +273,7 @@ def eval_case(case):
         n = len(lib)
         consumed = n if cfg['maxReadPairs'] is None else min(n, cfg['maxReadPairs'])
         run = run_loader(case, lib, d, True)
-        mode = '%s%s' % ('single-end' if run['nm'] == 1 else 'paired', ':per-cell' if cfg['per_cell'] else '')
+        mode = '%s%s%s' % ('cli:' if cfg.get('via_cli') else '', 'single-end' if run['nm'] == 1 else 'paired', ':per-cell' if cfg['per_cell'] else '')
         if run['err']:
             out.bad('%s:loader-exception:%s:%s' % (mode, run['err'][0], run['err'][1]), '%s: %s' % (name, run['err'][2]))
             return out
@@ -302,6 +344,10 @@ def eval_case(case):
             ny = yields.get(name, 0)
             if ny != len(dem[0]):
                 out.bad('%s:strategyYields-differs-from-written-records' % mode, '%s: counter %d, %d records in the demultiplexed output' % (name, ny, len(dem[0])))
+        if run['ret'] is None and cfg.get('via_cli'):
+            if 'processed %d read pairs' % consumed not in run['log']:
+                out.bad('%s:log-processed-count' % mode, run['log'][-300:])
+        if run['ret'] is not None:
             if 'processed %d read pairs' % consumed not in run['log']:
                 out.bad('%s:log-processed-count' % mode, run['log'][:200])
             if ny and '%s\t%d' % (name, ny) not in run['log']:
@@ -327,6 +373,16 @@ def eval_case(case):
     return out
 
 
+def cli_strategy():
+    def mark(c):
+        c['cfg']['via_cli'] = True
+        c['cfg']['lib'] = 'mylib'
+        c['cfg']['gz'] = True
+        return c
+    return strategy().map(mark)
+
+
 def parts(tier):
     t = tier == 'thorough'
-    return [Part('libraries', eval_case, strategy=strategy, examples=20000 if t else 1100)]
+    return [Part('libraries', eval_case, strategy=strategy, examples=20000 if t else 1100),
+            Part('cli', eval_case, strategy=cli_strategy, examples=400 if t else 16)]
